@@ -128,14 +128,14 @@ namespace
 
         // Completions of parked senders.  `expect` = how many the last step must have released (a cycle
         // that popped frees room and notifies; the graph stop wakes every waiter): those are awaited
-        // (a sender that does not come back within 10 s is reported as "+stuck"); any other sender
+        // (a sender that does not come back within 2 s is reported as "+stuck"); any other sender
         // that has already returned is collected without waiting.
         auto settle = [&](std::string &line, std::size_t expect) {
             for (;;)
             {
                 if (run.blocked.empty()) { return; }
                 const auto deadline = std::chrono::steady_clock::now() +
-                                      (expect > 0 ? std::chrono::seconds{10} : std::chrono::milliseconds{0});
+                                      (expect > 0 ? std::chrono::seconds{2} : std::chrono::milliseconds{0});
                 std::size_t ready = run.blocked.size();
                 do
                 {
